@@ -200,7 +200,7 @@ CHECKS = {
     "C13": {
         "text": ('Lean model of SchemaValidator method by method (SchemaValid.lean; is_subtype TRANSLATED from source each run; name classes, rule format '
                  'strings, the flags of _replace_types_and_directives and one flag per repaired defect RE-EXTRACTED each run: model_rules_extracted, '
-                 'config_fixed) against the declarative Spec/SchemaValidSpec.lean. Headline theorems, all full: validate_iff / accepts_iff (no error <=> '
+                 'config_fixed; the individual flag checks are private `decide` lemmas, not counted as obligations) against the declarative Spec/SchemaValidSpec.lean. Headline theorems, all full: validate_iff / accepts_iff (no error <=> '
                  'ValidSchema), violation_iff / reports_every_violation / valid_iff_no_violation (an error is reported <=> that rule INSTANCE is violated: '
                  'the validator never stops at the first), reports_all, subtype_iff (+ subtype_fuel) through lists and non-null, name_iff, perm_types '
                  '(verdict independent of the order of schema.types), the resolver clause given its meaning by an explicit model of Python call binding '
@@ -208,8 +208,7 @@ CHECKS = {
                  'call resolver(root, ctx, info, **arguments) the executor can make binds), and the _is_valid cache as a state machine over validate / '
                  'register_resolver / register_default_resolver / register_subscription / plain resolver assignment / field.arguments / multi-entry replace '
                  'requests incl. refusals / structural plain assignments: cache_sound, validate_ok_means_valid, step_inv, cache_sound_all (cached-valid => '
-                 'the CURRENT schema is valid, over all honest histories), structural_setter_seen_sound, cache_tracks_assignments / _arguments / _structure, '
-                 'signature_of_the_callable, and - WITH proposed_fixes/C13-S12.patch (fingerprint = everything the validator reads; flag '
+                 'the CURRENT schema is valid, over all honest histories), structural_setter_seen_sound, and - WITH proposed_fixes/C13-S12.patch (fingerprint = everything the validator reads; flag '
                  'cfgCacheTracksStructure re-extracted) - cache_sound_all_mutators / cache_sound_every_history: EVERY public mutator, structural plain '
                  'assignments included, with honest replace requests as the only condition. perm_deep: the verdict does not depend on the order of ANY '
                  'list of the description at any level (types, directives, fields, arguments, enum values, input fields, union members, interfaces). '
@@ -355,8 +354,8 @@ CHECKS["C14"].update({
     "technique": "Lean 4 proof over heap model (closedness and frame for clone/transform/extend) + live object-graph correspondence",
 })
 CHECKS["C20"].update({
-    "text": ("Lean theorems about the safe-change predicates TRANSLATED from differ/__init__.py on every run (safeIn_iff: exact for all type expressions; "
-             "safeOut_eq: the output predicate IS the subtype test except on the G1 class, safeOut_iff_outside_G1, safeOut_iff_partial + machine-checked "
+    "text": ("Lean theorems about the safe-change predicates TRANSLATED from differ/__init__.py on every run (safeIn_iff: exact for all type expressions read WITHOUT list input coercion; with it sound but conservative - safeIn_sound_coercion, "
+             "safeIn_not_exact_with_list_coercion: Int -> [Int] is reported BREAKING; safeOut_eq: the output predicate IS the subtype test except on the G1 class, safeOut_iff_outside_G1, safeOut_iff_partial + machine-checked "
              "refutation of the full statement = finding G1; safeOut_base / safeIn_base) and about the severity table EXTRACTED from changes.py "
              "(severity_table, compatibleRetypeSeverity). diff_schema itself is modelled in Lean (Diff.lean, root operation types included) with: "
              "diff_refl / diff_schema_zero, diff_perm and diff_perm_deep (+ _count, no_breaking_perm(_deep)): reordering ANY member list of either schema "
@@ -365,9 +364,9 @@ CHECKS["C20"].update({
              "compatibly_retyped_*_reported (every retyping of a matched element is reported), reported_at_severity, min_severity_filters; "
              "nobreaking_args_permissive (semantic, full), nobreaking_fields_strict_outside_G1 (lists included; the G1 class is the exact residue: "
              "nobreaking_fields_strict_full_fails_today), the shape facts nobreaking_types_kept / kinds_kept / fields_kept / arguments_kept / "
-             "no_*_becomes_required / enum_values_kept / union_members_kept / input_fields / directives; and the headline 'no BREAKING change => every "
-             "operation valid on the old schema is valid on the new one' in two forms: operations_stay_valid (ValidDoc, the declarative predicate of "
-             "C05's soundness theorem) and operations_stay_valid_rules_all over the C06 SPECIFICATION predicates rule by rule, 25 of the 26 rules: "
+             "no_*_becomes_required / enum_values_kept / union_members_kept / input_fields / directives; and the clause 'no BREAKING change => every operation valid on the old schema is valid on the new one': AS WORDED it is OperationsStayValidFull (Props/C20_full.lean, over the C06 validator model, all 26 rules) and is REFUTED (operations_stay_valid_full_refuted; witnesses unrooted_operation_refutes_full = G6, same_response_shape_refutes_full = G4); what is proved is PARTIAL: operations_stay_valid_all_but_overlap_partial (validator model, every rule but OverlappingFieldsCanBeMerged, under OpsRooted and the well-formedness facts), resting on " 
+             "operations_stay_valid_rules_all (specification predicates); the older operations_stay_valid covers only the STRUCTURAL predicate ValidDoc of C05 " 
+             "(no arguments, values, variables, directives) and is partial in the same sense. In detail: operations_stay_valid_rules_all over the C06 SPECIFICATION predicates rule by rule, 25 of the 26 rules: "
              "operations_stay_valid_rules (8 rules; views_compatible: the static output contexts of every node stay compatible), "
              "nobreaking_possibleFragmentSpreads, nobreaking_valuesOfCorrectType (inputViews_compatible: the expected INPUT type of every position "
              "- argument, list item, input object field, at any depth - is unknown on both sides or at least as permissive on the new one: "
